@@ -145,10 +145,13 @@ def run_program(prog, scheduler='default', policy='random', seed=0, ops=None, du
         ops = list(ops or [])
         while n < max_steps:
             # operator commands scheduled at this step index
-            fired = [o for o in ops if o['at'] <= n]
+            fired = [o for o in ops if o.get('at', 10 ** 9) <= n]
             if fired:
                 o = fired[0]
                 ops.remove(o)
+                if ops and 'rel' in ops[0]:
+                    # the next command is timed relative to this one (e.g. pause 2 steps after the rerun)
+                    ops[0] = dict(ops[0], at=n + 1 + ops[0]['rel'])
                 st = _op_step(o, w, ids, root_id, obs)
                 if st is not None:
                     obs, ids = record(w.step(st))
